@@ -4,7 +4,7 @@ import json
 
 ID = "C02"
 PROPERTIES_V = ["theories/Properties/C02.v"]
-MAKE_TARGETS = ["theories/Properties/C02.vo", "theories/Model/C02Cases.vo", "theories/Proofs/GenAgreeFlowBase.vo", "theories/Proofs/GenAgreeLimitCert.vo", "theories/Proofs/GenAgreeGetParams.vo"]
+MAKE_TARGETS = ["theories/Properties/C02.vo", "theories/Model/C02Cases.vo", "theories/Proofs/GenAgreeFlowBase.vo", "theories/Proofs/GenAgreeLimitCert.vo", "theories/Proofs/GenAgreeGetParams.vo", "theories/Proofs/GenAgreeProverFlow.vo"]
 HARNESS = "aggsender"
 CASES_IMPORTS = ("From Coq Require Import NArith ZArith List Uint63.\n"
                  "From Verif Require Import Base.Bytes Model.BridgeStore Model.Commitment Model.Reconcile "
